@@ -263,7 +263,7 @@ where
 pub(crate) struct CacheProcessor<V, U, CB, S> {
     insert_buf_rx: Receiver<Item<V>>,
     stop_rx: Receiver<()>,
-    clear_rx: Receiver<()>,
+    clear_rx: Receiver<Sender<()>>,
     metrics: Arc<Metrics>,
     store: Arc<ShardedMap<V, U, S, S>>,
     policy: Arc<AsyncLFUPolicy<S>>,
@@ -382,7 +382,7 @@ pub struct AsyncCache<
 
     pub(crate) stop_tx: Sender<()>,
 
-    pub(crate) clear_tx: Sender<()>,
+    pub(crate) clear_tx: Sender<Sender<()>>,
 
     pub(crate) callback: Arc<CB>,
 
@@ -480,20 +480,22 @@ where
             return Ok(());
         }
 
-        // stop the process item thread.
-        self.clear_tx.send(()).await.map_err(|e| {
+        // The processor task discards what is buffered, clears the cache and acknowledges:
+        // clearing here, concurrently with the processor, let items buffered before the call
+        // be admitted after it, or be half applied (resident but not charged, or vice versa).
+        let (ack_tx, ack_rx) = bounded(1);
+        self.clear_tx.send(ack_tx).await.map_err(|e| {
             CacheError::SendError(format!("fail to send clear signal to working thread {}", e))
         })?;
 
         #[cfg(transparencies_stretto_verif)]
         crate::verif::yield_point("clear.after_signal");
-        self.policy.clear();
         #[cfg(transparencies_stretto_verif)]
         crate::verif::yield_point("clear.after_policy_clear");
-        self.store.clear();
         #[cfg(transparencies_stretto_verif)]
         crate::verif::yield_point("clear.after_store_clear");
-        self.metrics.clear();
+        // A closed acknowledgement channel means the processor is gone (the cache is closing).
+        let _ = ack_rx.recv().await;
 
         Ok(())
     }
@@ -688,7 +690,7 @@ where
         policy: Arc<AsyncLFUPolicy<S>>,
         insert_buf_rx: Receiver<Item<V>>,
         stop_rx: Receiver<()>,
-        clear_rx: Receiver<()>,
+        clear_rx: Receiver<Sender<()>>,
         metrics: Arc<Metrics>,
         callback: Arc<CB>,
     ) -> Self {
@@ -729,9 +731,13 @@ where
                             tracing::error!("fail to handle cleanup event, error: {}", e);
                         }
                     },
-                    _ = self.clear_rx.recv().fuse() => {
-                        if let Err(e) = CacheCleaner::new(&mut self).clean().await {
+                    ack = self.clear_rx.recv().fuse() => {
+                        if let Err(e) = self.handle_clear_event().await {
                             tracing::error!("fail to handle clear event, error: {}", e);
+                        }
+                        // release the caller of clear()
+                        if let Ok(ack) = ack {
+                            let _ = ack.try_send(());
                         }
                     },
                     _ = self.stop_rx.recv().fuse() => {
@@ -747,8 +753,21 @@ where
     pub(crate) fn handle_close_event(&mut self) -> Result<(), CacheError> {
         self.insert_buf_rx.close();
         self.clear_rx.close();
+        // nobody will acknowledge the clear signals still queued: release their callers
+        while self.clear_rx.try_recv().is_ok() {}
         self.stop_rx.close();
         Ok(())
+    }
+
+    #[inline]
+    pub(crate) async fn handle_clear_event(&mut self) -> Result<(), CacheError> {
+        // discard what is buffered, then clear: nothing inserted before the clear() call
+        // survives it, and nothing is left half applied.
+        let res = CacheCleaner::new(self).clean().await;
+        self.policy.clear();
+        self.store.clear();
+        self.metrics.clear();
+        res
     }
 
     #[inline]
